@@ -393,6 +393,10 @@ class Gen:
         if not hs:
             return None
         src = src if src is not None and src in hs else self.choice(hs)
+        if self.coin(0.25):
+            h = self.op_multi_matmul(src)
+            if h is not None:
+                return h
         s = self.t[src].val.shape
         k = s[-1]
         oshape = self.choice([(k,), (k, self.r.randint(1, 3))])
@@ -402,6 +406,40 @@ class Gen:
         else:
             other = {"n": enc_arr(self.rand_vals(oshape, "f8"))}
         return self._emit_op("matmul", [{"t": src}, other])
+
+    def op_multi_matmul(self, src):
+        """a chain of 3-4 operands with src first, last or in the middle; the other operands are
+        existing tensors of a fitting shape where there are any, else literal arrays"""
+        s = self.t[src].val.shape
+        n = self.r.randint(3, 4)
+        if len(s) == 1:
+            pos = self.choice([0, n - 1])
+        else:
+            pos = self.r.randint(0, n - 1)
+        # inner dimensions d[0..n]; operand i has shape (d[i], d[i+1]); 1-D allowed at both ends
+        d = [self.r.randint(1, 3) for _ in range(n + 1)]
+        if len(s) == 2:
+            d[pos], d[pos + 1] = s
+        elif pos == 0:
+            d[1] = s[0]
+        else:
+            d[n - 1] = s[0]
+        parts = []
+        for i in range(n):
+            if i == pos:
+                parts.append({"t": src})
+                continue
+            shp = (d[i], d[i + 1])
+            if i == 0 and self.coin(0.3):
+                shp = (d[1],)
+            if i == n - 1 and self.coin(0.4):
+                shp = (d[n - 1],)
+            cands = [{"t": h} for h in self.float_tensors() if self.t[h].val.shape == shp]
+            if cands and self.coin(0.6):
+                parts.append(self.choice(cands))
+            else:
+                parts.append({"n": enc_arr(self.rand_vals(shp, "f8"))})
+        return self._emit_op("multi_matmul", parts)
 
     def op_einsum(self, src=None):
         hs2 = [h for h in self.float_tensors() if self.t[h].val.ndim == 2]
